@@ -127,8 +127,11 @@ func propC14(c *Ctx) {
 	}
 	bad("entropy-size", "enc 2 nil", implEnc(2, nil))
 	// word counts
-	for _, n := range append([]int64{-96, -24, -12, -3, -1, 0, 1, 2, 3, 6, 9, 11, 12, 13, 14, 15, 18, 21, 24, 25, 27, 30, 33, 36, 48, 96, 3000000}, extremeInts...) {
+	for _, n := range append(append([]int64{-96, -24, -12, -3, -1, 0, 1, 2, 3, 6, 9, 11, 12, 13, 14, 15, 18, 21, 24, 25, 27, 30, 33, 36, 48, 96, 3000000}, extremeInts...), aliasCounts()...) {
 		for _, l := range []int64{2, 5, -1, 10} {
+			if (n > 1000 || n < -1000) && l != 2 {
+				continue
+			}
 			bad("word-count", fmt.Sprintf("newm %d %d", n, l), c.newm("word-count", n, l, ""))
 		}
 	}
